@@ -13,7 +13,12 @@
     the wallet ([Spec.reach]: new blocks arriving, and rewinds followed by a different
     continuation, with transactions dropped, re-mined at other heights, or replaced by
     conflicting spends), all blocks ever offered forming a [valid_universe] (a txid names one
-    transaction, an output nullifier one output). *)
+    transaction INCLUDING its outputs' nullifiers, an output nullifier one output).
+    Guard that matters: [valid_universe.vu_tx] excludes a wallet-owned Sapling output re-mined
+    at another position of the commitment tree (same txid and output index, new nullifier).  The
+    model does cover it (rows keyed by (pool, txid, output index), nullifier replaced by the
+    upsert; under the guard this equals the upsert by nullifier, [Proofs.put_note_keyed]); the
+    generator produces and later spends such notes, and [run_case] / [prop_case] check them. *)
 From V.Lib Require Import Base.
 From V.Gen Require Import C01Consts.
 From V.C01 Require Import Model Spec Proofs Tables Chain Complete Ledger Corr Bridge.
@@ -37,12 +42,10 @@ Proof. exact balance_is_ledger_lemma. Qed.
     block of the chain. *)
 Theorem C01_ledger_sound :
   forall (birthday : N) (c : list block) (ops : list op) (s : wstate),
-    heights_from birthday c ->
-    (forall bs, In (OScan bs) ops -> incl bs c) ->
-    run birthday init ops = Ok s ->
+    valid_chain birthday c -> ops_on c ops -> run birthday init ops = Ok s ->
     (forall n, In n (w_notes s) ->
        (exists b t o, In b c /\ In t (b_txs b) /\ In o (t_outs t) /\ o_owner o = Some (n_acct n)
-                      /\ o_key o = n_key n /\ o_value o = n_value n /\ t_id t = n_recv n)
+                      /\ o_key o = n_key n /\ o_value o = n_value n /\ t_id t = n_recv n /\ o_idx o = n_idx n)
        /\ (forall tid, In tid (n_spent n) ->
              exists b t, In b c /\ In t (b_txs b) /\ t_id t = tid /\ In (n_key n) (t_spends t)))
     /\ NoDup (map n_key (w_notes s))
@@ -54,9 +57,7 @@ Proof. exact ledger_sound_lemma. Qed.
     with that account and value. *)
 Theorem C01_receipts_complete :
   forall (birthday : N) (c : list block) (ops : list op) (s : wstate),
-    heights_from birthday c -> NoDup (map o_key (all_outs c)) ->
-    (forall bs, In (OScan bs) ops -> incl bs c) ->
-    run birthday init ops = Ok s ->
+    valid_chain birthday c -> ops_on c ops -> run birthday init ops = Ok s ->
     forall b t o a, In b c -> has_block (w_blocks s) (b_height b) = true ->
       In t (b_txs b) -> In o (t_outs t) -> o_owner o = Some a ->
       exists n, In n (w_notes s) /\ n_key n = o_key o /\ n_acct n = a /\ n_value n = o_value o.
@@ -167,7 +168,7 @@ Theorem C01_forks_ledger_sound :
   forall U birthday c s, valid_universe U -> reach U birthday c s ->
     (forall n, In n (w_notes s) ->
        (exists b t o, In b U /\ In t (b_txs b) /\ In o (t_outs t) /\ o_owner o = Some (n_acct n)
-                      /\ o_key o = n_key n /\ o_value o = n_value n /\ t_id t = n_recv n)
+                      /\ o_key o = n_key n /\ o_value o = n_value n /\ t_id t = n_recv n /\ o_idx o = n_idx n)
        /\ (forall tid, In tid (n_spent n) ->
              exists b t, In b U /\ In t (b_txs b) /\ t_id t = tid /\ In (n_key n) (t_spends t)))
     /\ NoDup (map n_key (w_notes s))
@@ -256,9 +257,9 @@ Proof. exact truncate_unmines. Qed.
 (** * Non-vacuity and necessity of the chain-validity guard *)
 
 Definition ex_chain : list block :=
-  [ mkBlock 10 1 0 [mkTx 1 [] [mkOut (Some 0) 1 70000 5; mkOut None 0 9 6]];
+  [ mkBlock 10 1 0 [mkTx 1 [] [mkOut (Some 0) 1 70000 5 0; mkOut None 0 9 6 0]];
     mkBlock 11 2 1 [];
-    mkBlock 12 3 2 [mkTx 2 [(1, 5)] [mkOut (Some 0) 1 4000 7]] ].
+    mkBlock 12 3 2 [mkTx 2 [(1, 5)] [mkOut (Some 0) 1 4000 7 1]] ].
 
 (** spend scanned before the receipt, then the receipt: linked through the nullifier map *)
 Example ex_out_of_order :
@@ -277,6 +278,8 @@ Proof.
   - cbn. repeat constructor; cbn; intuition discriminate.
   - intros k hs hc [b [t [Hb [Hh [Ht Hk]]]]] [b' [t' [o [Hb' [Hh' [Ht' [Ho [Hoo Hko]]]]]]]].
     cbn in Hb, Hb'. intuition (subst; cbn in *; intuition (subst; cbn in *; try discriminate; try lia; intuition (subst; cbn in *; try discriminate; try lia))).
+  - intros b t o o' Hb Ht Ho Ho' Hp Hi. cbn in Hb.
+    intuition (subst; cbn in *; intuition (subst; cbn in *; intuition (subst; cbn in *; try discriminate; auto))).
 Qed.
 
 (** the hypotheses of the headline theorem are satisfiable: an out-of-order history with a
@@ -292,7 +295,7 @@ Proof. eexists. eexists. vm_compute. repeat split; reflexivity. Qed.
     a spend in the same block is not detected — the note stays unspent in the model (and in
     the code: the nullifier set is only updated between blocks, the map only after the block). *)
 Example ex_same_block_spend_missed :
-  match run 10 init [OScan [mkBlock 10 1 0 [mkTx 1 [] [mkOut (Some 0) 1 70000 5]; mkTx 2 [(1, 5)] []]]] with
+  match run 10 init [OScan [mkBlock 10 1 0 [mkTx 1 [] [mkOut (Some 0) 1 70000 5 0]; mkTx 2 [(1, 5)] []]]] with
   | Ok s => map n_spent (w_notes s) = [[]] /\ bal_total s 11 0 1 = 70000
   | _ => False
   end.
@@ -301,9 +304,9 @@ Proof. vm_compute. split; reflexivity. Qed.
 (** a reorganisation: block 11 is replaced, the spending transaction 2 is re-mined in the new
     block 12; the wallet scans the old branch, rewinds to 10 and scans the new one *)
 Definition ex_chain2 : list block :=
-  [ mkBlock 10 1 0 [mkTx 1 [] [mkOut (Some 0) 1 70000 5; mkOut None 0 9 6]];
+  [ mkBlock 10 1 0 [mkTx 1 [] [mkOut (Some 0) 1 70000 5 0; mkOut None 0 9 6 0]];
     mkBlock 11 20 1 [];
-    mkBlock 12 21 20 [mkTx 2 [(1, 5)] [mkOut (Some 0) 1 4000 7]] ].
+    mkBlock 12 21 20 [mkTx 2 [(1, 5)] [mkOut (Some 0) 1 4000 7 1]] ].
 Definition ex_universe : list block := ex_chain ++ skipn 1 ex_chain2.
 
 Example ex_valid2 : valid_chain 10 ex_chain2.
@@ -315,6 +318,8 @@ Proof.
   - cbn. repeat constructor; cbn; intuition discriminate.
   - intros k hs hc [b [t [Hb [Hh [Ht Hk]]]]] [b' [t' [o [Hb' [Hh' [Ht' [Ho [Hoo Hko]]]]]]]].
     cbn in Hb, Hb'. intuition (subst; cbn in *; intuition (subst; cbn in *; try discriminate; try lia; intuition (subst; cbn in *; try discriminate; try lia))).
+  - intros b t o o' Hb Ht Ho Ho' Hp Hi. cbn in Hb.
+    intuition (subst; cbn in *; intuition (subst; cbn in *; intuition (subst; cbn in *; try discriminate; auto))).
 Qed.
 
 Example ex_universe_valid : valid_universe ex_universe.
@@ -323,6 +328,8 @@ Proof.
   - intros b t b' t' Hb Ht Hb' Ht' E. cbn in Hb, Hb'.
     intuition (subst; cbn in *; intuition (subst; cbn in *; try discriminate; try reflexivity)).
   - intros b t o b' t' o' Hb Ht Ho Hb' Ht' Ho' E. cbn in Hb, Hb'.
+    intuition (subst; cbn in *; intuition (subst; cbn in *; intuition (subst; cbn in *; try discriminate; auto))).
+  - intros b t o o' Hb Ht Ho Ho' Hp Hi. cbn in Hb.
     intuition (subst; cbn in *; intuition (subst; cbn in *; intuition (subst; cbn in *; try discriminate; auto))).
 Qed.
 
